@@ -238,7 +238,32 @@ async def main():
             return {'confirmed': True, 'what': 'a list of sources onto an exact target was accepted'}
         except NotADirectoryError:
             pass
-        return {'confirmed': False, 'scenarios': k + len(cases) + 1}
+        # ---- symbolic links are followed: a link to a directory inside a source tree is a directory of that tree, and an
+        # existing destination that is a link to a directory is an existing directory (os.walk(followlinks=True) is the oracle)
+        lb = os.path.join(tmp, 'links')
+        os.makedirs(os.path.join(lb, 'shared', 'deep'))
+        open(os.path.join(lb, 'shared', 'x'), 'wb').write(payload(9))
+        open(os.path.join(lb, 'shared', 'deep', 'y'), 'wb').write(payload(PART + 3))
+        os.makedirs(os.path.join(lb, 'src', 'data'))
+        open(os.path.join(lb, 'src', 'plain'), 'wb').write(payload(5))
+        os.symlink(os.path.join(lb, 'shared'), os.path.join(lb, 'src', 'data', 'latest'))
+        os.symlink(os.path.join(lb, 'src', 'plain'), os.path.join(lb, 'src', 'alias'))
+        want = {}
+        for d, _, files in os.walk(os.path.join(lb, 'src'), followlinks=True):
+            for f in files:
+                full = os.path.join(d, f)
+                want[os.path.relpath(full, os.path.join(lb, 'src'))] = open(full, 'rb').read()
+        err = await run_copy(fs, Transfer(os.path.join(lb, 'src'), os.path.join(lb, 'out1'), treat_dest_as=Transfer.DEST_IS_TARGET))
+        got = read_tree(os.path.join(lb, 'out1')) if os.path.isdir(os.path.join(lb, 'out1')) else None
+        if err is not None or got != want:
+            return {'confirmed': True, 'what': 'a source tree containing a symbolic link to a directory is not copied like the tree it denotes', 'error': repr(err), 'expected_files': sorted(want), 'copied_files': sorted(got) if got else got}
+        os.makedirs(os.path.join(lb, 'volume', 'results'))
+        os.symlink(os.path.join(lb, 'volume', 'results'), os.path.join(lb, 'out2'))
+        err = await run_copy(fs, Transfer(os.path.join(lb, 'src', 'plain'), os.path.join(lb, 'out2'), treat_dest_as=Transfer.INFER_DEST))
+        landed = os.path.join(lb, 'volume', 'results', 'plain')
+        if err is not None or not os.path.isfile(landed) or open(landed, 'rb').read() != payload(5):
+            return {'confirmed': True, 'what': 'copying a file to an existing destination that is a symbolic link to a directory (destination inferred) does not put it into that directory', 'error': repr(err), 'directory_now_holds': sorted(os.listdir(os.path.join(lb, 'volume', 'results')))}
+        return {'confirmed': False, 'scenarios': k + len(cases) + 3}
     finally:
         await fs.close()
         shutil.rmtree(tmp, ignore_errors=True)
